@@ -68,6 +68,12 @@ let line l =
        if not (SsaErase.erase_eqb pre c) then "(not-an-erasure)"
        else if not (SsaErase.mixed_keys_ok c) then "(mixed-keys)" else "(erasure)"
      | _ -> "(badline)")
+  | "clean" ->
+    (* clean (cfg ...) : the two hypotheses of the budget theorems: no claims yet, unique local definitions *)
+    let rest = Stdlib.String.sub l (sp1 + 1) (Stdlib.String.length l - sp1 - 1) in
+    let c = r_cfg (parse_sexp rest) in
+    if not (Clean.clean_cfg c) then "(claims-present)"
+    else if not (Justify.ldefs_unique_cfg c) then "(local-defs-not-unique)" else "(clean)"
   | "constcond" ->
     (* constcond (cfg ...) : the findings of the constant-conditional pass, by position of the if statement *)
     let rest = Stdlib.String.sub l (sp1 + 1) (Stdlib.String.length l - sp1 - 1) in
